@@ -340,6 +340,10 @@ func runC05(c *Ctx) {
 			"safehtml.SanitizeCSS no longer sanitises the name first / forces the innocuous value for an innocuous name / routes the value through SanitizeCSSValue")
 	}
 
+	if c.thorough() {
+		generatedCSSSinks(c, "C05.R3")
+	}
+
 	// R5 ------------------------------------------------------------
 	var urlFn *ast.FuncDecl
 	for _, fd := range allFuncDecls(sp) {
